@@ -1,4 +1,5 @@
 import WacProofs.Lemmas.NameMap
+import WacProofs.Lemmas.VersionInj
 /-
   C15 — semver-compatible name matching is the semver track relation; highest wins.
 
@@ -181,23 +182,28 @@ theorem get_highest_on_track (es : List (Str × β)) (m : NameMap β) (q : Str) 
   · obtain ⟨e, he, hte⟩ := hsome; exact absurd hte (h2 e he)
   · exact h
 
-/-- regardless of insertion order: with pairwise distinct names and no two entries of a track at
-the same position of the version order, any two insertion orders answer every query alike -/
+/-- distinct names of one track never occupy the same position of the version order (the order
+is total on them): `Version.key` determines the version and an accepted version string is
+determined by its version. -/
+theorem no_ties (es : List (Str × β)) : TieFree es := tieFree_always es
+
+/-- regardless of insertion order: any two insertion orders of the same pairwise distinct
+entries answer every query alike -/
 theorem get_order_independent (es es' : List (Str × β)) (m m' : NameMap β) (q : Str)
-    (hnd : (es.map (·.1)).Nodup) (htf : TieFree es) (hp : es.Perm es')
+    (hnd : (es.map (·.1)).Nodup) (hp : es.Perm es')
     (h : ({} : NameMap β).insertAll es = some m) (h' : ({} : NameMap β).insertAll es' = some m') :
     m.get q = m'.get q := by
   have hnd' : (es'.map (·.1)).Nodup := (hp.map _).nodup_iff.mp hnd
   have a := get_isGet es m q hnd h
   have b := isGet_perm hp.symm hnd' q _ (get_isGet es' m' q hnd' h')
-  exact isGet_unique hnd htf q _ _ a b
+  exact isGet_unique hnd (no_ties es) q _ _ a b
 
 /-- the model equals the executable specification the driver evaluates on the
 implementation's answers -/
 theorem get_eq_getSpec (es : List (Str × β)) (m : NameMap β) (q : Str)
-    (hnd : (es.map (·.1)).Nodup) (htf : TieFree es)
+    (hnd : (es.map (·.1)).Nodup)
     (h : ({} : NameMap β).insertAll es = some m) : m.get q = getSpec es q :=
-  isGet_unique hnd htf q _ _ (get_isGet es m q hnd h) (getSpec_isGet es q)
+  isGet_unique hnd (no_ties es) q _ _ (get_isGet es m q hnd h) (getSpec_isGet es q)
 
 -- non-vacuity: three versions of one track inserted in two orders, a fourth on another track;
 -- the hypotheses hold and the fallback answers with the highest (index 1 = 1.4.0)
